@@ -3,12 +3,13 @@ import HyperModel.Proofs.Balance
 /-!
 # C34 Balance formatting and parsing round-trip
 
-Model: `Model/Balance.lean` = `utils.FormatBalance / ParseBalance` **with**
-`fixes/C34-balance-integer-arithmetic.patch` (integer arithmetic).  The unrepaired float64
-code violates both halves of the property, not only for balances ≥ 2^53
-(`FormatBalance(4095) = "0.000004095"` parses back to 4094; `"0.000000247"` parses to 246;
-2^53+1, 123456789123456789, 2^64−1 do not round-trip): re-demonstrated on the Go code by the
-harness corpus on every run.
+Model: `Model/Balance.lean` = `utils.FormatBalance / ParseBalance` as of /repo commit f4579f3
+("format and parse balances with integer arithmetic" = `fixes/C34-balance-integer-arithmetic.patch`).
+Both halves of the property were violated before /repo f4579f3 (float64 code), not only for
+balances ≥ 2^53: `FormatBalance(4095) = "0.000004095"` parsed back to 4094; `"0.000000247"`
+parsed to 246; 2^53+1, 123456789123456789, 2^64−1 did not round-trip.  These witnesses stay
+first in the harness corpus; a regression is flagged by the oracle keys `roundtrip…`,
+`format-inexact…`, `parse-inexact…`.
 
 Strings are byte lists; `AllDigits`, `decVal` (the number a digit string denotes) are in
 `Proofs/Balance.lean`.
